@@ -95,10 +95,19 @@ impl Parser {
 
         let class_type = input.user_data().get_type_of_executing_class();
 
-        if !expected_return_type.eq_complex(
-            &Cow::Borrowed(supplied_type),
-            &TypecheckFlags::use_class(class_type).lhs_unwrap(true),
-        ) {
+        // an optional can only be returned from a function whose return type is optional
+        let optional_for_plain = supplied_type.disregard_distractors(false).is_optional().0
+            && !expected_return_type
+                .disregard_distractors(false)
+                .is_optional()
+                .0;
+
+        if optional_for_plain
+            || !expected_return_type.eq_complex(
+                &Cow::Borrowed(supplied_type),
+                &TypecheckFlags::use_class(class_type).lhs_unwrap(true),
+            )
+        {
             return Err(vec![new_err(
                 input.as_span(),
                 &input.user_data().get_source_file_name(),
